@@ -141,6 +141,10 @@ func run(c Case) *h.Result {
 	if want.Err != nil {
 		return h.Fail("harness: generated program signals in the reference evaluator: %s\n%s", want.Err, c.Prog)
 	}
+	if m.Big {
+		res.Skip = "reference-integers-beyond-2^31"
+		return res
+	}
 	undefine(forms)
 	defer undefine(forms)
 	scope := slip.NewScope()
